@@ -139,8 +139,17 @@ impl PropertyValue {
     }
 
     /// Returns the number of bytes, including any padding bytes, that will be
-    /// written by the `write()` method.  Always returns a multiple of four.
+    /// written by the `write()` method when using UTF-8.  Always returns a
+    /// multiple of four.
+    #[cfg(test)]
     fn size_including_padding(&self) -> u32 {
+        self.encoded_size_including_padding(CodePage::Utf8)
+    }
+
+    /// Returns the number of bytes, including any padding bytes, that will be
+    /// written by the `write()` method for the given code page.  Always
+    /// returns a multiple of four.
+    fn encoded_size_including_padding(&self, codepage: CodePage) -> u32 {
         match self {
             PropertyValue::Empty => 4,
             PropertyValue::Null => 4,
@@ -148,7 +157,8 @@ impl PropertyValue {
             PropertyValue::I2(_) => 8,
             PropertyValue::I4(_) => 8,
             PropertyValue::LpStr(ref string) => {
-                ((12 + string.len() as u32) >> 2) << 2
+                let length = codepage.encode(string.as_str()).len() as u32;
+                ((12 + length) >> 2) << 2
             }
             PropertyValue::FileTime(_) => 12,
         }
@@ -339,7 +349,8 @@ impl PropertySet {
         let mut property_offsets: Vec<u32> = Vec::new();
         for (_, value) in self.properties.iter() {
             property_offsets.push(section_size);
-            section_size += value.size_including_padding();
+            section_size +=
+                value.encoded_size_including_padding(self.codepage);
         }
         writer.write_u32::<LittleEndian>(section_size)?;
         writer.write_u32::<LittleEndian>(num_properties)?;
